@@ -59,6 +59,37 @@ def simulate(module: str, cfg: str, num: int, depth: int, seed: int, timeout: in
         shutil.rmtree(d, ignore_errors=True)
 
 
+def select_diverse(behaviours: List[Dict[str, Any]], k: int, stim: Any) -> List[Dict[str, Any]]:
+    """Random walks are mostly short and alike.  From a large sample keep k behaviours chosen greedily for
+    new coverage: features are the windows of three consecutive stimulus actions (with their parameters),
+    every (action, number of earlier stimuli / 4) position, and the number of stimuli."""
+    feats = []
+    for beh in behaviours:
+        seq = [(n, tuple(a)) for n, a in beh["actions"] if n in stim]
+        f = set()
+        for i in range(len(seq)):
+            f.add(("w3",) + tuple(seq[i:i + 3]))
+            f.add(("pos", seq[i], i // 4))
+        f.add(("len", len(seq)))
+        feats.append(f)
+    chosen: List[int] = []
+    covered: set = set()
+    left = set(range(len(behaviours)))
+    while left and len(chosen) < k:
+        best = max(left, key=lambda i: (len(feats[i] - covered), len(feats[i]), -i))
+        if not feats[best] - covered and len(chosen) >= k // 2:
+            break
+        chosen.append(best)
+        covered |= feats[best]
+        left.discard(best)
+    return [behaviours[i] for i in sorted(chosen)]
+
+
+H1_STIM = {"ClientSend", "ClientEof", "ClientReset", "TransportFail", "Terminate", "Tick", "AppRecv", "AppSendStart",
+           "AppSendBody", "AppExit"}
+H2_STIM = {"AppPush", "AppEnd", "WindowUpdateStream", "WindowUpdateConn", "Reset", "ConnClose"}
+
+
 # ------------------------------------------------------------------------------------------
 # H1Conn -> HTTP/1 scripts
 
@@ -154,8 +185,9 @@ def gen_h1_from_spec(tier: str, rng, cfg_name: str = "MC_H1Conn_sim.cfg") -> Ite
     unit = 20 if tier == "quick" else 400
     for label, faults, weight in mixes:
         seed = rng.randrange(1, 1 << 30)
-        behaviours = simulate("MC_H1Conn", cfg_name, num=unit * weight, depth=80, seed=seed,
+        behaviours = simulate("MC_H1Conn", cfg_name, num=unit * weight * 8, depth=120, seed=seed,
                               cfg_subst={'Faults = {"eof", "reset", "fail", "term"}': "Faults = %s" % faults})
+        behaviours = select_diverse(behaviours, unit * weight, H1_STIM)
         for beh in behaviours:
             sc = h1_script_from_behaviour(beh, ka_ticks=2, tick_s=1.0,
                                           cfg={"max_app_queue_size": 1, "keep_alive_max_requests": 2},
@@ -170,9 +202,11 @@ def gen_h1_from_spec(tier: str, rng, cfg_name: str = "MC_H1Conn_sim.cfg") -> Ite
 UNIT = 16384
 
 
-def h2_script_from_behaviour(beh: Dict[str, Any], init_win: int, chunk_units: int, fam: str) -> Optional[Dict[str, Any]]:
-    streams = [1, 3]
-    steps: List[Dict[str, Any]] = []
+def h2_script_from_behaviour(beh: Dict[str, Any], init_win: int, chunk_units: int, fam: str,
+                             streams: Optional[List[int]] = None, max_chunks: int = 3) -> Optional[Dict[str, Any]]:
+    streams = streams or [1, 3]
+    # one byte of connection-level credit makes the default connection window (65 535) the model's 4 units
+    steps: List[Dict[str, Any]] = [{"s": "h2", "op": "wupd", "stream": 0, "n": 1}]
     for i, sid in enumerate(streams):
         steps.append(build.h2_headers(i + 1, sid, "GET", toks=[["/t%d" % sid, "/t%d" % sid]]))
     rid_of = {str(sid): str(i + 1) for i, sid in enumerate(streams)}
@@ -206,14 +240,86 @@ def h2_script_from_behaviour(beh: Dict[str, Any], init_win: int, chunk_units: in
         return None
     steps.append({"s": "dt", "d": 0.05})
     return {"carrier": "h2", "cfg": {}, "apps": {"*": [["remote"]]}, "steps": steps, "fam": fam, "autoack": False,
-            "maxchunk": chunk_units * UNIT, "h2_settings": {"4": init_win * UNIT}, "bodies": {}}
+            "maxchunk": chunk_units * UNIT, "h2_settings": {"4": init_win * UNIT}, "bodies": {},
+            "design": {"streams": "OneStream" if len(streams) == 1 else "TwoStreams", "init_win": init_win,
+                       "max_chunks": max_chunks}}
 
 
 def gen_h2_from_spec(tier: str, rng, cfg_name: str = "MC_H2Conn_sim.cfg") -> Iterator[Dict[str, Any]]:
-    num = 120 if tier == "quick" else 2500
-    seed = rng.randrange(1, 1 << 30)
-    behaviours = simulate("MC_H2Conn", cfg_name, num=num, depth=70, seed=seed)
-    for beh in behaviours:
-        sc = h2_script_from_behaviour(beh, init_win=1, chunk_units=2, fam="tlc/H2Conn/sim")
-        if sc is not None:
-            yield sc
+    num = 60 if tier == "quick" else 1250
+    # small stream windows (the stream window is what runs out) and large ones (the connection window does)
+    # ... and, as for H1Conn, with and without the events that end a walk early
+    for init_win in (1, 6):
+        for label, faults, share in (("credit-only", "{}", 2), ("rst", '{"rst"}', 1), ("all", '{"rst", "close"}', 1)):
+            seed = rng.randrange(1, 1 << 30)
+            n = max(1, num * share // 4)
+            behaviours = simulate("MC_H2Conn", cfg_name, num=n * 8, depth=150, seed=seed,
+                                  cfg_subst={"InitWin = 1": "InitWin = %d" % init_win,
+                                             'Faults = {"rst", "close"}': "Faults = %s" % faults})
+            behaviours = select_diverse(behaviours, n, H2_STIM)
+            for beh in behaviours:
+                sc = h2_script_from_behaviour(beh, init_win=init_win, chunk_units=2,
+                                              fam="tlc/H2Conn/sim-w%d-%s" % (init_win, label))
+                if sc is not None:
+                    yield sc
+
+
+# ------------------------------------------------------------------------------------------
+# the complete state graph of a one-stream instance, folded into stimulus words (harness/graph_tests.py)
+
+H2_SERVER = {"Pick", "Wake", "SendData", "EndCheck", "AppPushResume", "AppDrainResume"}
+_LABEL = re.compile(r"^(\w+)(?:\(([^)]*)\))?$")
+
+
+def _h2_graph_cfg(init_win: int, credit: int) -> str:
+    return ("SPECIFICATION Spec\nCONSTANTS\n  Streams <- OneStream\n  MaxChunks = 3\n  Chunk = 2\n  InitWin = %d\n"
+            "  ConnWin = 4\n  MaxCredit = %d\n  Faults = {\"rst\", \"close\"}\n  Dev <- CodeDev\nCHECK_DEADLOCK FALSE\n"
+            % (init_win, credit))
+
+
+def gen_h2_from_graph(tier: str, rng) -> Iterator[Dict[str, Any]]:
+    from . import graph_tests
+
+    for init_win, credit in ((6, 4), (1, 5)):
+        words = graph_tests.cached_words("MC_H2Conn", _h2_graph_cfg(init_win, credit), H2_SERVER)[0][1]
+        if tier == "quick" and len(words) > 150:
+            words = rng.sample(words, 150)
+        for w in words:
+            actions = []
+            for label in w:
+                m = _LABEL.match(label)
+                actions.append((m.group(1), [x.strip() for x in m.group(2).split(",")] if m.group(2) else []))
+            sc = h2_script_from_behaviour({"actions": actions}, init_win=init_win, chunk_units=2,
+                                          fam="tlc/H2Conn/graph-w%d" % init_win, streams=[1], max_chunks=3)
+            if sc is not None:
+                yield sc
+
+
+H1_SERVER = {"ReadData", "NextEvent", "ReaderPut", "ReaderReleased", "ReaderResume", "ReaderClosing", "MicroStep",
+             "IdleFire", "IdleEnd", "HandlerExit", "TransportDeath"}
+
+
+def _h1_graph_cfg(faults: str) -> str:
+    return ("SPECIFICATION Spec\nCONSTANTS\n  MaxReq = 2\n  MaxBody = 1\n  QueueCap = 1\n  KAMax = 2\n  KATimeout = 1\n"
+            "  MaxT = 1\n  Plans <- QuickPlans\n  Dev <- CodeDev\n  Faults = %s\nCONSTRAINT Bound\nCHECK_DEADLOCK FALSE\n" % faults)
+
+
+def gen_h1_from_graph(tier: str, rng) -> Iterator[Dict[str, Any]]:
+    """Thorough tier only (the graphs have 0.2 - 0.5 M states; dumping one takes 0.5 - 1.5 min)."""
+    if tier != "thorough":
+        return
+    from . import graph_tests
+
+    for label, faults in (("none", "{}"), ("eof", '{"eof"}'), ("reset", '{"reset"}'), ("fail", '{"fail"}'), ("term", '{"term"}')):
+        for text, words in graph_tests.cached_words("MC_H1Conn", _h1_graph_cfg(faults), H1_SERVER):
+            for w in words:
+                actions = []
+                for lab in w:
+                    m = _LABEL.match(lab)
+                    actions.append((m.group(1), [x.strip() for x in m.group(2).split(",")] if m.group(2) else []))
+                sc = h1_script_from_behaviour({"actions": actions, "first_state": text}, ka_ticks=1, tick_s=1.0,
+                                              cfg={"max_app_queue_size": 1, "keep_alive_max_requests": 2},
+                                              fam="tlc/H1Conn/graph-" + label)
+                if sc is not None:
+                    sc["design"] = {"ka": 1}
+                    yield sc
